@@ -18,7 +18,8 @@ RULE = ("2-3 models alive at once, each with its own environment kind (plain, Sp
         "join-registered components in joining order. Non-trivial: a leave of an agent owning a component while another "
         "resident owns one of the same type, or a re-join after the component set changed outside residency, or two models "
         "listing the same type at once. Distinct = digest of the case. While findings F1-F3 are live, attach/detach on a "
-        "RESIDENT agent without the explicit scheduler call is forced to the paired form and counted as excluded.")
+        "RESIDENT agent without the explicit scheduler call is forced to the paired form and counted as excluded."
+        " Added in rounds 19-24: Model.complete() as an operation (the environment stays in use); a quarter of the histories end by deep-copying a model and checking the copy's listings and its independence; the environment that a prepared world replaces may hold an agent with the id of a newcomer.")
 ASSUMPTIONS = ["an agent is resident in at most one environment at a time", "explicit (de)registration is only generated for "
                "components of resident agents", "the world-managed PositionComponent is not part of the claim"]
 
